@@ -1,22 +1,23 @@
 #!/usr/bin/env python3
 """Runs the registered quick checks against every seeded change in /verif/seeded/<id>/.
-For each: git -C /repo apply patch.diff; bin/check <property> quick (plus any extra checks listed in
-meta.json 'also'); git -C /repo checkout -- .  Results are written to /verif/seeded/results.json.
+For each: git -C {REPO} apply patch.diff; bin/check <property> quick (plus any extra checks listed in
+meta.json 'also'); git -C {REPO} checkout -- .  Results are written to /verif/seeded/results.json.
 usage: tools/run_seeded.py [id ...]"""
 import json, os, subprocess, sys, time
 ROOT = os.path.dirname(os.path.dirname(os.path.abspath(__file__)))
+REPO = os.environ.get("RSDD_REPO", "/repo")  # a scratch worktree can be used instead of /repo (bin/check honours RSDD_REPO)
 SEEDED = os.path.join(ROOT, "seeded")
 def sh(cmd, **kw): return subprocess.run(cmd, shell=True, capture_output=True, text=True, **kw)
 def main():
     ids = sys.argv[1:] or sorted(d for d in os.listdir(SEEDED) if os.path.isdir(os.path.join(SEEDED, d)))
     res_path = os.path.join(SEEDED, "results.json")
     results = json.load(open(res_path)) if os.path.exists(res_path) else {}
-    assert sh("git -C /repo status --porcelain").stdout.strip() == "", "/repo has uncommitted changes"
+    assert sh(f"git -C {REPO} status --porcelain").stdout.strip() == "", f"{REPO} has uncommitted changes"
     for i in ids:
         d = os.path.join(SEEDED, i)
         meta = json.load(open(os.path.join(d, "meta.json")))
         props = [meta["property"]] + meta.get("also", [])
-        r = sh(f"git -C /repo apply {d}/patch.diff")
+        r = sh(f"git -C {REPO} apply {d}/patch.diff")
         if r.returncode != 0:
             results[i] = {"error": "patch does not apply: " + r.stderr[:200]}; continue
         entry = {"property": meta["property"], "checks": {}}
@@ -35,7 +36,7 @@ def main():
                             os.makedirs(os.path.join(d, "replays"), exist_ok=True)
                             os.replace(rp, os.path.join(d, "replays", f"{p}-" + os.path.basename(rp)))
         finally:
-            sh("git -C /repo checkout -- .")
+            sh(f"git -C {REPO} checkout -- .")
         entry["caught_by"] = [p for p, c in entry["checks"].items() if c["caught"]]
         results[i] = entry
         print(i, "caught by", entry["caught_by"] or "NOTHING", {p: c["wall_s"] for p, c in entry["checks"].items()})
